@@ -223,12 +223,55 @@ func apply(s state, op *Op, snapArg state) (state, string) {
 			return s, "D"
 		}
 		return s, "nil"
-	case "getmap":
+	case "getmap", "getmapor":
 		c := s[op.Key]
-		if c != "" && c[0] == 'n' {
+		if c != "" && c != "nil" && c[0] == 'n' {
 			return s, c
 		}
+		if op.Kind == "getmapor" {
+			return s, "D"
+		}
 		return s, "nil"
+	case "getfloator":
+		c := s[op.Key]
+		if c != "" && c[0] == 'i' {
+			return s, c[1:]
+		}
+		if c != "" && c[0] == 'f' {
+			return s, c[1:] + ".5"
+		}
+		return s, "-1.25"
+	case "getboolor":
+		c := s[op.Key]
+		if c == "bt" || c == "bf" {
+			return s, strconv.FormatBool(c == "bt")
+		}
+		return s, "true"
+	case "bind":
+		// Bind into an *any: the value's JSON form (a read)
+		c := s[op.Key]
+		switch {
+		case c == "":
+			return s, "E"
+		case c == "nil":
+			return s, "null"
+		case c == "bt", c == "bf":
+			return s, strconv.FormatBool(c == "bt")
+		case c[0] == 'i':
+			return s, c[1:]
+		case c[0] == 'f':
+			return s, c[1:] + ".5"
+		case c[0] == 's':
+			return s, strconv.Quote(c)
+		case c[0] == 'l', c[0] == 'a':
+			return s, "[" + c[1:] + "]"
+		case c[0] == 'm':
+			return s, `{"v":` + c[1:] + `}`
+		case c[0] == 'n':
+			n, _ := strconv.Atoi(c[1:])
+			return s, `{"x` + strconv.Itoa(n%3) + `":` + c[1:] + `}`
+		}
+		return s, "?"
 	}
 	panic("unknown op " + op.Kind)
 }
@@ -365,6 +408,29 @@ func execOp(st *flyt.SharedStore, op *Op, snaps *[]*snapshot) (out string, snapA
 			return "nil", snapArg
 		}
 		return codeOf(m), snapArg
+	case "getmapor":
+		m := st.GetMapOr(k, map[string]any{"D": "D"})
+		if len(m) == 1 && m["D"] == "D" {
+			return "D", snapArg
+		}
+		return codeOf(m), snapArg
+	case "getfloator":
+		return strconv.FormatFloat(st.GetFloat64Or(k, -1.25), 'f', -1, 64), snapArg
+	case "getboolor":
+		return strconv.FormatBool(st.GetBoolOr(k, true)), snapArg
+	case "bind":
+		var dest any
+		if err := st.Bind(k, &dest); err != nil {
+			if strings.Contains(err.Error(), "not found") {
+				return "E", snapArg
+			}
+			return "!bind:" + err.Error(), snapArg
+		}
+		b, err := json.Marshal(dest)
+		if err != nil {
+			return "!marshal:" + err.Error(), snapArg
+		}
+		return string(b), snapArg
 	default:
 		panic("unknown op " + op.Kind)
 	}
@@ -509,7 +575,7 @@ func (g *genState) op(snapOps bool) Op {
 	case n < 89:
 		return Op{Kind: "clear"}
 	case n < 95:
-		kinds := []string{"getstring", "getstringor", "getint", "getintor", "getfloat", "getbool", "getslice", "getsliceor", "getmap"}
+		kinds := []string{"getstring", "getstringor", "getint", "getintor", "getfloat", "getfloator", "getbool", "getboolor", "getslice", "getsliceor", "getmap", "getmapor", "bind"}
 		if g.slices && r.IntN(2) == 0 {
 			kinds = []string{"getslice", "getsliceor"}
 		}
